@@ -27,6 +27,7 @@ import (
 	"sort"
 	"strings"
 	"testing"
+	"time"
 
 	"pgregory.net/rapid"
 
@@ -421,7 +422,15 @@ func checkHistCase(c histCase) (fw.Outcome, *fw.Violation) {
 				continue
 			}
 			sql := stepSQL(c.Tables, st, i, 0, 1)
-			res := s.Exec(sql)
+			res, slow := s.ExecTimeout(sql, 20*time.Second)
+			if slow {
+				// the failure strikes only after (part of) the underlying query was evaluated, and csvq can need far longer
+				// for it than the reference's size budget suggests (a thorough shard spent 24 minutes in one such statement):
+				// the session is given up, nothing is judged after this point
+				classes["fail_step_gave_up_after_20s"] = true
+				fw.AddExtra("history_fail_steps_gave_up_slow", 1)
+				break
+			}
 			if res.ParseErr {
 				return o, fw.Harness("generated statement does not parse: %s: %v", sql, res.Err)
 			}
